@@ -34,9 +34,10 @@ PID = 'C18'
 DIG = '0123456789ABCDEF'
 NAME = {2: 'bin', 8: 'oct', 16: 'hex'}
 RANGE = {2: 512, 8: 2 ** 29, 16: 2 ** 39}
-ILLEGAL = {2: ['2', 'G', ' ', '_', '+', 'x', '-', '.'],
-           8: ['8', 'G', ' ', '_', '+', 'x', '-', '.'],
-           16: ['G', ' ', '_', '+', 'x', '-', '.', 'g'],
+# (line feed, tab, carriage return: legal characters of a cell text, CHAR(10))
+ILLEGAL = {2: ['2', 'G', ' ', '_', '+', 'x', '-', '.', '\n', '\t', '\r'],
+           8: ['8', 'G', ' ', '_', '+', 'x', '-', '.', '\n', '\t', '\r'],
+           16: ['G', ' ', '_', '+', 'x', '-', '.', 'g', '\n', '\t', '\r'],
            # the decimal argument of DEC2x and the places argument, given as
            # text: characters that no Excel reading of a number contains
            # (blanks, signs, '.', ',', 'E', '%', '$', '/', ':' can all be part
@@ -194,8 +195,10 @@ def run(tier, seed):
         # strings with one illegal character, and 11 characters
         pos = rnd.randrange(len(canon) + 1)
         for bad in ILLEGAL[base]:
-            for s_bad in (canon[:pos] + bad + canon[pos + 1:],
-                          (canon[:pos] + bad + canon[pos:])[:10]):
+            # somewhere, as the first and as the last character
+            for s_bad in {canon[:pos] + bad + canon[pos + 1:],
+                          (canon[:pos] + bad + canon[pos:])[:10],
+                          (bad + canon)[:10], canon[:9] + bad}:
                 if s_bad == '' or all(ch.upper() in DIG[:base] for ch in s_bad):
                     continue
                 expect_error(f'{nm}2dec illegal', call(x2dec, s_bad),
